@@ -18,6 +18,7 @@ import (
 	"verifharness/bpfrun"
 	"verifharness/vh"
 
+	"github.com/cilium/ebpf"
 	"github.com/codelaboratoryltd/bng/pkg/dhcp"
 	bngebpf "github.com/codelaboratoryltd/bng/pkg/ebpf"
 	"github.com/codelaboratoryltd/bng/pkg/nat"
@@ -39,17 +40,24 @@ type DCfg struct {
 	NatBlocks int  `json:"nat_blocks,omitempty"`
 	Bits      int  `json:"bits"`      // prefix length of 10.16.0.0/Bits, gateway .1
 	LeaseSec  int  `json:"lease_sec"` // pool lease time
+	// Full: fault injection. The listed kernel maps are full for the whole case, so that every Put of a
+	// NEW key fails (E2BIG) while updates of existing keys and deletes work:
+	// 1 subscriber_pools 2 circuit_id_map 3 circuit_id_subscribers 4 qos_egress 5 qos_ingress 6 subscriber_nat
+	Full []int `json:"full,omitempty"`
 }
 
 // DOp: K = disc | req | rel | decl | age | tick.
 // C: client index (MAC 02:00:00:00:00:<C+1>).  Cid: circuit number in option 82 (0 = none).
 // IP (req, decl): 0 = the address last offered/acked to C (absent when none), -1 = option absent,
 // n > 0 = host n of the pool network.
+// Rid: option 82 carries a Remote-ID sub-option (with Cid == 0: relay information WITHOUT a Circuit-ID
+// sub-option; for the server that is "no circuit-id", which is what the Model's cid = 0 stands for).
 type DOp struct {
 	K     string `json:"k"`
 	C     int    `json:"c,omitempty"`
 	Cid   int    `json:"cid,omitempty"`
 	Relay bool   `json:"relay,omitempty"`
+	Rid   bool   `json:"rid,omitempty"`
 	IP    int    `json:"ip,omitempty"`
 	D     int    `json:"d,omitempty"` // age: seconds
 }
@@ -73,6 +81,15 @@ type acctSrv struct {
 	mu   sync.Mutex
 	recs []acctRec
 	seen map[string]bool
+	// onStop (PPPoE overlap streams): asked at every new Accounting-Stop; a gate it returns holds the
+	// Accounting-Response to that record until the gate opens
+	onStop func() *gate
+}
+
+func (s *acctSrv) setOnStop(f func() *gate) {
+	s.mu.Lock()
+	s.onStop = f
+	s.mu.Unlock()
 }
 
 func startAcct() *acctSrv {
@@ -128,13 +145,23 @@ func startAcct() *acctSrv {
 				continue
 			}
 			key := fmt.Sprintf("%d/%x", p.Identifier, p.Authenticator[:])
+			var g *gate
 			s.mu.Lock()
 			if !s.seen[key] { // a retransmission is the same record
 				s.seen[key] = true
-				s.recs = append(s.recs, acctRec{uint64(rfc2866.AcctStatusType_Get(p)), rfc2866.AcctSessionID_GetString(p)})
+				kind := uint64(rfc2866.AcctStatusType_Get(p))
+				s.recs = append(s.recs, acctRec{kind, rfc2866.AcctSessionID_GetString(p)})
+				if kind == 2 && s.onStop != nil {
+					g = s.onStop()
+				}
 			}
 			s.mu.Unlock()
 			if b, err := p.Response(radius.CodeAccountingResponse).Encode(); err == nil {
+				if g != nil {
+					close(g.entered)
+					go func() { <-g.open; c.WriteToUDP(b, addr) }()
+					continue
+				}
 				c.WriteToUDP(b, addr)
 			}
 		}
@@ -179,7 +206,70 @@ type kenv struct {
 	kernel         bool
 	dhcp, nat, qos *bpfrun.Object
 	acct           *acctSrv
-	base           int // goroutines of the idle process (accounting server running, no world)
+	base           int                  // goroutines of the idle process (accounting server running, no world)
+	full           map[string]*ebpf.Map // fault injection: one-slot stand-ins whose slot is taken (see fullMap)
+}
+
+// faultMaps numbers the kernel maps a fault can be injected into (DCfg.Full, Model c_full).
+var faultMaps = map[int]string{1: "subscriber_pools", 2: "circuit_id_map", 3: "circuit_id_subscribers", 4: "qos_egress", 5: "qos_ingress", 6: "subscriber_nat"}
+
+func (e *kenv) objOf(name string) *bpfrun.Object {
+	switch name {
+	case "qos_egress", "qos_ingress":
+		return e.qos
+	case "subscriber_nat":
+		return e.nat
+	}
+	return e.dhcp
+}
+
+func isDummyKey(k []byte) bool {
+	for _, b := range k {
+		if b != 0xff {
+			return false
+		}
+	}
+	return true
+}
+
+// fullMap returns a kernel hash map with the key and value size of the named map, one slot, and that
+// slot taken by a dummy key (all 0xff): the state of a production map that has reached max_entries.
+func (e *kenv) fullMap(name string) *ebpf.Map {
+	if m := e.full[name]; m != nil {
+		return m
+	}
+	ks, vs, ok := e.objOf(name).Sizes(name)
+	if !ok {
+		panic("no such map " + name)
+	}
+	m, err := ebpf.NewMap(&ebpf.MapSpec{Name: fmt.Sprintf("c16full%d", len(e.full)), Type: ebpf.Hash, KeySize: ks, ValueSize: vs, MaxEntries: 1})
+	must(err)
+	if e.full == nil {
+		e.full = map[string]*ebpf.Map{}
+	}
+	e.full[name] = m
+	return m
+}
+
+func resetFull(m *ebpf.Map) {
+	for _, kv := range dumpRaw(m) {
+		if !isDummyKey(kv.Key) {
+			must(m.Delete(kv.Key))
+		}
+	}
+	must(m.Put(bytes.Repeat([]byte{0xff}, int(m.KeySize())), make([]byte, m.ValueSize())))
+}
+
+func dumpRaw(m *ebpf.Map) []bpfrun.KV {
+	var out []bpfrun.KV
+	var k, v []byte
+	it := m.Iterate()
+	for it.Next(&k, &v) {
+		out = append(out, bpfrun.KV{Key: append([]byte(nil), k...), Value: append([]byte(nil), v...)})
+	}
+	must(it.Err())
+	sort.Slice(out, func(i, j int) bool { return bytes.Compare(out[i].Key, out[j].Key) < 0 })
+	return out
 }
 
 var dhcpMaps = []string{"subscriber_pools", "vlan_subscriber_pools", "circuit_id_map", "circuit_id_subscribers"}
@@ -287,20 +377,46 @@ type dworld struct {
 	sids    map[string]uint64
 	base    int
 	nhosts  int
+	maps    map[string]*ebpf.Map // the kernel map behind each name in this world (the object's, or a full stand-in)
+}
+
+// mp returns the kernel map this world's managers were given for name.
+func (w *dworld) mp(name string) *ebpf.Map { return w.maps[name] }
+
+// dump returns the entries of the world's map, without the dummy entry of a full stand-in.
+func (w *dworld) dump(name string) []bpfrun.KV {
+	var out []bpfrun.KV
+	for _, kv := range dumpRaw(w.mp(name)) {
+		if !isDummyKey(kv.Key) {
+			out = append(out, kv)
+		}
+	}
+	return out
 }
 
 func (e *kenv) newDWorld(c DCfg) *dworld {
-	w := &dworld{e: e, c: c, offered: map[int]net.IP{}, sids: map[string]uint64{}}
+	w := &dworld{e: e, c: c, offered: map[int]net.IP{}, sids: map[string]uint64{}, maps: map[string]*ebpf.Map{}}
 	e.clear()
 	e.acct.take()
 	lg := zap.NewNop()
 	loader, err := bngebpf.NewLoader("verif0", lg)
 	must(err)
 	if e.kernel {
+		for _, n := range append([]string{"qos_egress", "qos_ingress", "subscriber_nat"}, dhcpMaps...) {
+			w.maps[n] = e.objOf(n).Map(n)
+		}
+		for _, k := range c.Full {
+			n, ok := faultMaps[k]
+			if !ok {
+				panic(fmt.Sprintf("bad fault map %d", k))
+			}
+			w.maps[n] = e.fullMap(n)
+			resetFull(w.maps[n])
+		}
 		loader.VerifInjectDHCPMaps(bngebpf.VerifDHCPMaps{
-			SubscriberPools: e.dhcp.Map("subscriber_pools"), VLANSubscriberPools: e.dhcp.Map("vlan_subscriber_pools"),
+			SubscriberPools: w.mp("subscriber_pools"), VLANSubscriberPools: w.mp("vlan_subscriber_pools"),
 			IPPools: e.dhcp.Map("ip_pools"), Stats: e.dhcp.Map("stats_map"), ServerConfig: e.dhcp.Map("server_config"),
-			CircuitIDMap: e.dhcp.Map("circuit_id_map"), CircuitIDSubscribers: e.dhcp.Map("circuit_id_subscribers")})
+			CircuitIDMap: w.mp("circuit_id_map"), CircuitIDSubscribers: w.mp("circuit_id_subscribers")})
 	}
 	pm := dhcp.NewPoolManager(loader, lg)
 	p, err := dhcp.NewPool(dhcp.PoolConfig{ID: 1, Name: "p1", Network: fmt.Sprintf("%s/%d", netBase, c.Bits), Gateway: hostIP(1).String(),
@@ -316,7 +432,7 @@ func (e *kenv) newDWorld(c DCfg) *dworld {
 		w.qosm, err = qos.NewManager(qos.ManagerConfig{Interface: "verif0"}, pol, lg)
 		must(err)
 		if e.kernel {
-			w.qosm.VerifInjectMaps(e.qos.Map("qos_egress"), e.qos.Map("qos_ingress"), e.qos.Map("qos_stats_map"))
+			w.qosm.VerifInjectMaps(w.mp("qos_egress"), w.mp("qos_ingress"), e.qos.Map("qos_stats_map"))
 		}
 		w.srv.SetQoSManager(w.qosm)
 	}
@@ -325,7 +441,7 @@ func (e *kenv) newDWorld(c DCfg) *dworld {
 			PortRangeEnd: 1024 + 64*c.NatBlocks - 1}, lg)
 		must(err)
 		if e.kernel {
-			w.natm.VerifInjectMaps(nat.VerifNATMaps{SubscriberNAT: e.nat.Map("subscriber_nat"), NATSessions: e.nat.Map("nat_sessions"),
+			w.natm.VerifInjectMaps(nat.VerifNATMaps{SubscriberNAT: w.mp("subscriber_nat"), NATSessions: e.nat.Map("nat_sessions"),
 				NATReverse: e.nat.Map("nat_reverse"), NATPool: e.nat.Map("nat_pool"), NATStats: e.nat.Map("nat_stats_map"),
 				NATConfig: e.nat.Map("nat_config_map"), EIMTable: e.nat.Map("eim_table"), HairpinIPs: e.nat.Map("hairpin_ips"),
 				ALGPorts: e.nat.Map("alg_ports"), NATLogRB: e.nat.Map("nat_log_rb")})
@@ -372,7 +488,7 @@ func setCoq(m map[uint64]bool) string {
 
 const poison = 4000000000 // an inconsistency between a manager's table and its kernel map shows as this member
 
-// snapshot returns the Coq arguments "alloc avail unavail leases bycid nat qos cmac chash csub cvlan".
+// snapshot returns the Coq arguments "alloc avail unavail leases bycid nat qos_egress qos_ingress qos_tracked cmac chash csub cvlan".
 func (w *dworld) snapshot() (dhcp.VerifC02Snapshot, string) {
 	sn := w.srv.VerifC02Snapshot(1)
 	now := time.Now()
@@ -400,7 +516,7 @@ func (w *dworld) snapshot() (dhcp.VerifC02Snapshot, string) {
 		hw, _ := net.ParseMAC(l.MAC)
 		bc[cidNumBytes(kb)] = vh.Pair(vh.N(macNum(hw)), vh.N(ipNum(l.IP)))
 	}
-	nt, qs := map[uint64]bool{}, map[uint64]bool{}
+	nt, qs, qi, qt := map[uint64]bool{}, map[uint64]bool{}, map[uint64]bool{}, map[uint64]bool{}
 	cm, ch, cs, cv := map[uint64]string{}, map[uint64]string{}, map[uint64]string{}, map[uint64]string{}
 	if w.natm != nil {
 		for n := 0; n < w.nhosts; n++ {
@@ -412,15 +528,16 @@ func (w *dworld) snapshot() (dhcp.VerifC02Snapshot, string) {
 			nt[poison] = true
 		}
 	}
-	if w.qosm != nil && !w.e.kernel {
-		// without kernel maps the manager's table is only visible through its size
-		for i := 0; i < w.qosm.GetSubscriberCount(); i++ {
-			qs[poison+uint64(i)] = true
+	if w.qosm != nil {
+		for _, ip := range w.qosm.VerifC16Tracked() {
+			qt[ipNum(ip)] = true
+		}
+		if w.qosm.GetSubscriberCount() != len(qt) {
+			qt[poison] = true
 		}
 	}
 	if w.e.kernel {
-		kv, err := w.e.nat.Dump("subscriber_nat")
-		must(err)
+		kv := w.dump("subscriber_nat")
 		kn := map[uint64]bool{}
 		for _, e := range kv {
 			kn[u32le(e.Key)] = true
@@ -428,21 +545,13 @@ func (w *dworld) snapshot() (dhcp.VerifC02Snapshot, string) {
 		if w.natm != nil && !sameSet(kn, nt) {
 			nt[poison+1] = true
 		}
-		eg, err := w.e.qos.Dump("qos_egress")
-		must(err)
-		ig, err := w.e.qos.Dump("qos_ingress")
-		must(err)
-		ki := map[uint64]bool{}
-		for _, e := range eg {
+		for _, e := range w.dump("qos_egress") {
 			qs[u32le(e.Key)] = true
 		}
-		for _, e := range ig {
-			ki[u32le(e.Key)] = true
+		for _, e := range w.dump("qos_ingress") {
+			qi[u32le(e.Key)] = true
 		}
-		if !sameSet(qs, ki) || (w.qosm != nil && w.qosm.GetSubscriberCount() != len(qs)) {
-			qs[poison] = true
-		}
-		d := func(name string) []bpfrun.KV { kv, err := w.e.dhcp.Dump(name); must(err); return kv }
+		d := w.dump
 		for _, e := range d("subscriber_pools") {
 			m := make([]byte, 8)
 			binary.BigEndian.PutUint64(m, binary.LittleEndian.Uint64(e.Key))
@@ -474,8 +583,8 @@ func (w *dworld) snapshot() (dhcp.VerifC02Snapshot, string) {
 			cs[k] = vh.N(u32le(e.Value[4:8]))
 		}
 	}
-	return sn, fmt.Sprintf("%s %s %s %s %s %s %s %s %s %s %s", pairsCoq(al), vh.List(av), setCoq(un), pairsCoq(le), pairsCoq(bc),
-		setCoq(nt), setCoq(qs), pairsCoq(cm), pairsCoq(ch), pairsCoq(cs), pairsCoq(cv))
+	return sn, fmt.Sprintf("%s %s %s %s %s %s %s %s %s %s %s %s %s", pairsCoq(al), vh.List(av), setCoq(un), pairsCoq(le), pairsCoq(bc),
+		setCoq(nt), setCoq(qs), setCoq(qi), setCoq(qt), pairsCoq(cm), pairsCoq(ch), pairsCoq(cs), pairsCoq(cv))
 }
 
 func sameSet(a, b map[uint64]bool) bool {
@@ -502,9 +611,17 @@ func (w *dworld) msg(t dhcpv4.MessageType, o DOp, ip net.IP) *dhcpv4.DHCPv4 {
 	if o.Relay {
 		req.GatewayIPAddr = relayIP
 	}
+	var o82 []byte
 	if o.Cid > 0 {
 		cb := cidBytes(o.Cid)
-		req.UpdateOption(dhcpv4.OptGeneric(dhcpv4.OptionRelayAgentInformation, append([]byte{1, byte(len(cb))}, cb...)))
+		o82 = append([]byte{1, byte(len(cb))}, cb...)
+	}
+	if o.Rid {
+		rb := []byte(fmt.Sprintf("cpe-%d", o.C))
+		o82 = append(o82, append([]byte{2, byte(len(rb))}, rb...)...)
+	}
+	if o82 != nil {
+		req.UpdateOption(dhcpv4.OptGeneric(dhcpv4.OptionRelayAgentInformation, o82))
 	}
 	return req
 }
@@ -601,6 +718,13 @@ func (w *dworld) apply(o DOp, tags map[string]bool) string {
 		}
 	}
 	tags["op:"+o.K] = true
+	if o.Rid && (o.K == "disc" || o.K == "req") {
+		if o.Cid == 0 {
+			tags["opt82:remote-id-only"] = true
+		} else {
+			tags["opt82:circuit-id+remote-id"] = true
+		}
+	}
 	return fmt.Sprintf("(%s, DO %d %d %s %s)", op, reply, rip, vh.List(ev), snap)
 }
 
@@ -615,8 +739,13 @@ func (e *kenv) runDHCP(c DCase) vh.Case {
 	for n := 2; n <= w.nhosts-2; n++ {
 		av = append(av, vh.N(ipNum(hostIP(n))))
 	}
-	cfg := fmt.Sprintf("DC %d %d %s %d%%Z %s %s %s %d %s", ipNum(hostIP(0)), ipNum(hostIP(w.nhosts-1)), vh.List(av), c.Cfg.LeaseSec,
-		vh.Bool(c.Cfg.Radius), vh.Bool(c.Cfg.Qos), vh.Bool(c.Cfg.Nat), c.Cfg.NatBlocks, vh.Bool(e.kernel))
+	var fl []string
+	for _, k := range c.Cfg.Full {
+		fl = append(fl, vh.N(uint64(k)))
+		tags[fmt.Sprintf("fault:full-%s", faultMaps[k])] = true
+	}
+	cfg := fmt.Sprintf("DC %d %d %s %d%%Z %s %s %s %d %s %s", ipNum(hostIP(0)), ipNum(hostIP(w.nhosts-1)), vh.List(av), c.Cfg.LeaseSec,
+		vh.Bool(c.Cfg.Radius), vh.Bool(c.Cfg.Qos), vh.Bool(c.Cfg.Nat), c.Cfg.NatBlocks, vh.Bool(e.kernel), vh.List(fl))
 	var tl []string
 	for t := range tags {
 		tl = append(tl, t)
@@ -698,8 +827,80 @@ func enumPaths(all bool) []DCase {
 	return out
 }
 
+// dRenewals: what the renewing REQUEST of a client that obtained its lease through a relay with Circuit-ID 1
+// carries. The lease's circuit-id state must still be found and removed by whatever path ends the session.
+var dRenewals = map[string]DOp{
+	"same":        {K: "req", Cid: 1, Relay: true},            // full option 82 again
+	"same+rid":    {K: "req", Cid: 1, Relay: true, Rid: true}, // Circuit-ID and Remote-ID
+	"none":        {K: "req"},                                 // unicast renewal, no option 82
+	"rid-only":    {K: "req", Relay: true, Rid: true},         // relay information without a Circuit-ID sub-option
+	"rid-only-uc": {K: "req", Rid: true},                      // the same, not relayed (giaddr 0)
+	"moved":       {K: "req", Cid: 2, Relay: true},            // the client is now behind another circuit
+	"moved+rid":   {K: "req", Cid: 2, Relay: true, Rid: true},
+}
+var dRenewalKinds = []string{"same", "same+rid", "none", "rid-only", "rid-only-uc", "moved", "moved+rid"}
+
+// enumRenewals: lease through a relay with Circuit-ID x first renewal x second renewal (or none) x ending
+// path; then a new CPE appears on circuit 1 (and on circuit 2) and must be treated as a new client.
+func enumRenewals() []DCase {
+	var out []DCase
+	cfg := DCfg{Radius: true, Qos: true, Nat: true, NatBlocks: 4, Bits: 28, LeaseSec: 3600}
+	for _, first := range []int{1, 0} { // lease obtained with / without a circuit-id
+		for _, r1 := range dRenewalKinds {
+			for _, r2 := range append([]string{""}, "same", "none", "rid-only", "moved") {
+				for _, e1 := range dEnds {
+					if first == 0 && (r2 != "" || e1 == "decl-other" || e1 == "decl-none") {
+						continue
+					}
+					ops := []DOp{{K: "disc", Cid: first, Relay: first == 1}, {K: "req", Cid: first, Relay: first == 1}}
+					ops = append(ops, dRenewals[r1])
+					if r2 != "" {
+						ops = append(ops, dRenewals[r2])
+					}
+					ops = append(ops, endOps(e1, 0, cfg.LeaseSec)...)
+					ops = append(ops, DOp{K: "disc", C: 1, Cid: 1, Relay: true}, DOp{K: "req", C: 1, Cid: 1, Relay: true},
+						DOp{K: "disc", C: 2, Cid: 2, Relay: true}, DOp{K: "req", C: 2, Cid: 2, Relay: true}, DOp{K: "rel", C: 1}, DOp{K: "rel", C: 2})
+					out = append(out, DCase{Cfg: cfg, Ops: ops})
+				}
+			}
+		}
+	}
+	return out
+}
+
+// enumFaults: every kernel map the teardown depends on is full while the session is established (so the
+// write of its entry fails and the installation is left half done), then the session ends by every path and
+// a second client takes an address under the same fault.
+var dFaultSets = [][]int{{1}, {2}, {3}, {4}, {5}, {6}, {4, 5}, {2, 3}, {1, 5, 6}}
+
+func enumFaults() []DCase {
+	var out []DCase
+	for _, fs := range dFaultSets {
+		for prefix := 2; prefix <= 3; prefix++ {
+			for _, e1 := range dEnds {
+				cfg := DCfg{Radius: true, Qos: true, Nat: true, NatBlocks: 4, Bits: 28, LeaseSec: 3600, Full: fs}
+				ops := []DOp{{K: "disc", Cid: 1, Relay: true}}
+				for i := 2; i <= prefix; i++ {
+					ops = append(ops, DOp{K: "req", Cid: 1, Relay: true})
+				}
+				ops = append(ops, endOps(e1, 0, cfg.LeaseSec)...)
+				ops = append(ops, DOp{K: "disc", C: 1, Cid: 2, Relay: true}, DOp{K: "req", C: 1, Cid: 2, Relay: true}, DOp{K: "rel", C: 1}, DOp{K: "rel", C: 0})
+				out = append(out, DCase{Cfg: cfg, Ops: ops})
+			}
+		}
+	}
+	return out
+}
+
 func randDCfg(r *vh.Rng) DCfg {
 	c := DCfg{Radius: r.Chance(4, 5), Qos: r.Chance(4, 5), Nat: r.Chance(4, 5), NatBlocks: 1 + r.Intn(4), Bits: 28 + r.Intn(2), LeaseSec: []int{600, 3600, 86400}[r.Intn(3)]}
+	if r.Chance(1, 4) { // fault injection: one or two kernel maps are full
+		c.Full = []int{1 + r.Intn(6)}
+		if k := 1 + r.Intn(6); r.Chance(1, 2) && k != c.Full[0] {
+			c.Full = append(c.Full, k)
+		}
+		sort.Ints(c.Full)
+	}
 	return c
 }
 
@@ -725,17 +926,22 @@ func genRandD(r *vh.Rng, maxOps int, guarded bool) DCase {
 			cid = 1 + r.Intn(ncli) // another client's circuit
 			relay = r.Chance(2, 3)
 		}
+		rid := r.Chance(1, 5) // relay information with a Remote-ID (when cid == 0: without a Circuit-ID)
+		if r.Chance(1, 10) {
+			cid = 5 + cl // the client's second circuit (it moved; nobody else uses it)
+			relay = true
+		}
 		switch x := r.Intn(20); {
 		case x < 4:
-			c.Ops = append(c.Ops, DOp{K: "disc", C: cl, Cid: cid, Relay: relay})
+			c.Ops = append(c.Ops, DOp{K: "disc", C: cl, Cid: cid, Relay: relay, Rid: rid})
 			if est[cl] == 0 {
 				est[cl] = 1
 			}
 		case x < 9:
 			if est[cl] == 0 {
-				c.Ops = append(c.Ops, DOp{K: "disc", C: cl, Cid: cid, Relay: relay})
+				c.Ops = append(c.Ops, DOp{K: "disc", C: cl, Cid: cid, Relay: relay, Rid: rid})
 			}
-			o := DOp{K: "req", C: cl, Cid: cid, Relay: relay}
+			o := DOp{K: "req", C: cl, Cid: cid, Relay: relay, Rid: rid}
 			if !guarded && r.Chance(1, 10) {
 				o.IP = 2 + r.Intn(6)
 			}
